@@ -300,6 +300,19 @@ func runC07(c *Ctx, r *Report, tier string) {
 		}
 		// error stored
 		okErr := false
+		// (the error may travel through the result of a new helper that makes the call)
+		flowCtx = c
+		if hc, ok := h.(ssa.Value); ok {
+			for _, ev := range errValuesOfCall(h.(ssa.CallInstruction)) {
+				fl := flowsTo(ev)
+				for _, s := range c.instrs(pa, c.isStoreTo(errF)) {
+					if fl[s.(*ssa.Store).Val] || fl[c.resolve(s.(*ssa.Store).Val)] {
+						okErr = true
+					}
+				}
+			}
+			_ = hc
+		}
 		for _, s := range c.instrs(pa, c.isStoreTo(errF)) {
 			if strings.HasPrefix(c.term(s.(*ssa.Store).Val), "dyncall(Parser.UnknownOptionHandler(") && strings.HasSuffix(c.term(s.(*ssa.Store).Val), "#1") {
 				okErr = true
